@@ -288,6 +288,7 @@ def _field_setters(ctx):
     ctx.ob("C10.R6", T + ":bit_concat.setter", "what remains of the value after all parts were filled must be 0 (or -1 for a negative value): otherwise the value does not fit and ValueError is raised", ok, construct="concat-leftover-checked", detail=t)
     _encoder_operands(ctx)
     _rotated_immediate(ctx)
+    _form_selection(ctx)
 
 
 def encoder_operand_sites(project):
@@ -379,3 +380,47 @@ def _rotated_immediate(ctx):
     val = " ".join(norm(sym.deep_inline(ret[0].value, env)).split()) if len(ret) == 1 else ""
     ok = val in ("%s >> %s | (%s & 2 ** %s - 1) << 32 - %s" % (a, n, a, n, n), "%s >> %s | (%s & (1 << %s) - 1) << 32 - %s" % (a, n, a, n, n))
     ctx.ob("C10.R8", B + ":rotate_right", "rotate_right(v, n) moves the low n bits of v to the top of a 32-bit word: (v >> n) | ((v & (2**n - 1)) << (32 - n))", ok, construct="rotate-right-32", detail=val)
+
+
+def _form_selection(ctx):
+    """R9: x86-64 memory operands exist in a short form (signed 8-bit displacement) and a long form (32-bit).  The
+    encoder picks the form itself; the token field would accept 128..255 for a signed byte (known finding on
+    Token.__setitem__), so the test that picks the short form is the only gate."""
+    from .. import minieval, sym
+    X = "ppci/arch/x86_64/instructions.py"
+    ctx.rule("C10.R9", "x86-64: an encoder that chooses between operand forms stores a value into a SIGNED n-bit field only under a condition that implies -2^(n-1) <= value <= 2^(n-1)-1 (decided by evaluating the condition on the boundary values)", floor=1)
+    mod = ctx.project.module(X)
+    fields = {}
+    for c in [c for c in mod.tree.body if isinstance(c, ast.ClassDef)]:
+        for st in c.body:
+            if isinstance(st, ast.Assign) and isinstance(st.value, ast.Call) and norm(st.value.func) == "bit_range" and isinstance(st.targets[0], ast.Name):
+                a, b = try_const(st.value.args[0]), try_const(st.value.args[1])
+                signed = any(k.arg == "signed" and try_const(k.value) is True for k in st.value.keywords)
+                if isinstance(a, int) and isinstance(b, int):
+                    fields[st.targets[0].id] = (b - a, signed)
+    ctx.need(any(s for _, s in fields.values()), "x86_64: no signed token field found")
+    n = 0
+    for cls in [c for c in mod.tree.body if isinstance(c, ast.ClassDef)]:
+        for fn in [f for f in cls.body if isinstance(f, ast.FunctionDef)]:
+            for call in [c for c in ast.walk(fn) if isinstance(c, ast.Call) and isinstance(c.func, ast.Attribute) and c.func.attr == "set_field" and len(c.args) == 2]:
+                fname = try_const(call.args[0])
+                if fname not in fields or not fields[fname][1]:
+                    continue
+                width = fields[fname][0]
+                val = norm(call.args[1])
+                conds = [(c, pol) for c, pol in sym.conjuncts(call, fn, {}) if val in norm(c)]
+                if not conds:
+                    continue      # no form choice here: the field setter is the gate (see C10.R4)
+                n += 1
+                lo, hi = -(1 << (width - 1)), (1 << (width - 1)) - 1
+                wrong = []
+                try:
+                    for d in (lo - 2, lo - 1, lo, lo + 1, -1, 0, 1, hi - 1, hi, hi + 1, hi + 2, (1 << width) - 1, 1 << width, -(1 << width)):
+                        taken = all(bool(minieval.ev(c, {val: d})) == pol for c, pol in conds)
+                        if taken and not (lo <= d <= hi):
+                            wrong.append(d)
+                    ctx.ob("C10.R9", "%s:%s.%s" % (X, cls.name, fn.name), "`%s` goes into the signed %d-bit field %s only when it lies in [%d, %d]" % (val, width, fname, lo, hi), not wrong, construct="form:%s.%s" % (cls.name, fname), node=call,
+                           detail="short form also chosen for %s" % wrong if wrong else "")
+                except minieval.Undecidable as e:
+                    ctx.undecided("C10.R9", "%s:%s.%s" % (X, cls.name, fn.name), "form condition not evaluable: %s" % e)
+    ctx.need(n >= 1, "x86_64: no encoder choosing a signed displacement form found")
